@@ -1366,6 +1366,9 @@ func (c *Context) Pow(d, x, y *Decimal) (Condition, error) {
 	ed.Mul(&tmp, z, &tmp)
 
 	if err := ed.Err(); err != nil {
+		// d may hold x**integ(y) by now (unless it is x itself, in which case
+		// that went into a scratch value).
+		d.Set(decimalNaN)
 		return ed.Flags, err
 	}
 	res |= c.round(d, &tmp)
